@@ -82,7 +82,8 @@ Proof.
   - rewrite firstn_length, skipn_length, app_length. unfold reclen, add_size in Hfit. lia.
 Qed.
 
-(* ---- representation invariant: data = records already read ++ records pending ++ free space *)
+(* ---- representation invariant: backing array = records already read ++ records pending ++ free
+   space (the free space includes whatever lies between len and cap) *)
 Definition all_wf (l : list item) : Prop := Forall (fun it => wf_item it = true) l.
 
 Record Inv (init : nat) (b : lbuf) (done pend : list item) : Prop := {
@@ -91,49 +92,63 @@ Record Inv (init : nat) (b : lbuf) (done pend : list item) : Prop := {
   inv_w : wpos b = length (flat done ++ flat pend);
   inv_wfd : all_wf done;
   inv_wfp : all_wf pend;
-  inv_len : rec_max <= length (data b);
-  inv_bound : (N.of_nat (length (data b)) <= N.max (limit b) (N.of_nat init))%N
+  inv_wl : wpos b <= blen b;
+  inv_lc : blen b <= length (data b);
+  inv_len : rec_max <= blen b;
+  inv_init : initsz b = init;
+  inv_cap : init <= length (data b);
+  inv_bound : (N.of_nat (blen b) <= N.max (limit b) (N.of_nat init))%N
 }.
 
 Lemma inv_new : forall init lim, rec_max <= init -> Inv init (buf_new init lim) [] [].
 Proof.
-  intros. constructor; simpl; try reflexivity; try constructor.
-  - exists (repeat 0%N init). reflexivity.
-  - rewrite repeat_length. exact H.
-  - rewrite repeat_length. lia.
+  intros. constructor; cbn [buf_new data blen wpos rpos limit initsz flat map concat app length];
+    try reflexivity; try constructor; try rewrite repeat_length; try lia.
+  exists (repeat 0%N init). reflexivity.
 Qed.
 
 Lemma inv_reset : forall init b done pend, Inv init b done pend -> Inv init (buf_reset b) [] [].
 Proof.
-  intros init b done pend [Hd Hr Hw Hwd Hwp Hl Hb]. constructor; simpl; try reflexivity; try constructor; auto.
+  intros init b done pend [Hd Hr Hw Hwd Hwp Hwl Hlc Hl Hi Hc Hb].
+  constructor; cbn [buf_reset data blen wpos rpos limit initsz flat map concat app length];
+    try reflexivity; try constructor; auto; try lia.
   exists (data b). reflexivity.
 Qed.
 
-Lemma inv_wpos_le : forall init b done pend, Inv init b done pend -> wpos b <= length (data b).
+Lemma inv_recycle : forall init b done pend,
+  rec_max <= init -> Inv init b done pend -> Inv init (buf_recycle b) [] [].
 Proof.
-  intros init b done pend [[rest Hd] Hr Hw _ _ _ _]. rewrite Hd, app_length, Hw. lia.
+  intros init b done pend Hri [Hd Hr Hw Hwd Hwp Hwl Hlc Hl Hi Hc Hb].
+  unfold buf_recycle. rewrite Hi.
+  destruct (length (data b) <? init) eqn:E; [lia|].
+  constructor; cbn [data blen wpos rpos limit initsz flat map concat app length];
+    try reflexivity; try constructor; auto; try lia.
+  exists (data b). reflexivity.
 Qed.
 
 (* ---- Add *)
-Lemma add_write_inv : forall init b done pend it d rest',
-  d = (flat done ++ flat pend) ++ rest' -> reclen it <= length rest' ->
+Lemma add_write_inv : forall init b done pend it d len' rest',
+  d = (flat done ++ flat pend) ++ rest' ->
+  wpos b + reclen it <= len' -> len' <= length d -> init <= length d ->
   wpos b = length (flat done ++ flat pend) -> rpos b = length (flat done) ->
   all_wf done -> all_wf pend -> wf_item it = true ->
-  rec_max <= length d -> (N.of_nat (length d) <= N.max (limit b) (N.of_nat init))%N ->
+  rec_max <= len' -> initsz b = init -> (N.of_nat len' <= N.max (limit b) (N.of_nat init))%N ->
   Inv init {| data := splice d (wpos b)
                         (record_bytes it (firstn (hsize (i_v4 it)) (skipn (wpos b + 1) d)));
-              wpos := wpos b + reclen it; rpos := rpos b; limit := limit b |} done (pend ++ [it]).
+              blen := len';
+              wpos := wpos b + reclen it; rpos := rpos b; limit := limit b; initsz := initsz b |}
+      done (pend ++ [it]).
 Proof.
-  intros init b done pend it d rest' Hd Hfit Hw Hr Hwd Hwp Hwf Hl Hb.
+  intros init b done pend it d len' rest' Hd Hfit Hlc Hc Hw Hr Hwd Hwp Hwf Hl Hi Hb.
+  assert (Hrest : reclen it <= length rest') by (rewrite Hd, app_length in Hlc; lia).
   subst d. rewrite Hw. rewrite write_ok by assumption.
-  constructor; cbn [data wpos rpos limit].
+  assert (Hlen : length ((flat done ++ flat pend) ++ enc it ++ skipn (reclen it) rest')
+                 = length ((flat done ++ flat pend) ++ rest'))
+    by (rewrite !app_length, skipn_length, enc_length; lia).
+  constructor; cbn [data blen wpos rpos limit initsz]; try rewrite Hlen; auto; try lia.
   - exists (skipn (reclen it) rest'). rewrite flat_app, flat_one. rewrite <- !app_assoc. reflexivity.
-  - exact Hr.
   - rewrite flat_app, flat_one, !app_length, enc_length. lia.
-  - exact Hwd.
   - apply Forall_app. split; [exact Hwp | constructor; [exact Hwf | constructor]].
-  - rewrite !app_length, skipn_length, enc_length in *. lia.
-  - rewrite !app_length, skipn_length, enc_length in *. lia.
 Qed.
 
 Lemma add_step : forall init b done pend it,
@@ -143,36 +158,40 @@ Lemma add_step : forall init b done pend it,
   \/ (buf_add b it = Ok (b, false) /\ (limit b <= N.of_nat (wpos b + reclen it))%N).
 Proof.
   intros init b done pend it HI Hwf.
-  pose proof (inv_wpos_le _ _ _ _ HI) as Hwl.
-  destruct HI as [[rest Hd] Hr Hw Hwd Hwp Hl Hb].
+  destruct HI as [[rest Hd] Hr Hw Hwd Hwp Hwl Hlc Hl Hi Hc Hb].
   destruct (wf_item_spec it Hwf) as [Hh _].
   destruct (reclen_bound it Hwf) as [Hrb _].
-  assert (Hrest : length (data b) = wpos b + length rest) by (rewrite Hd, app_length, Hw; lia).
   unfold buf_add. cbv zeta.
   replace (wpos b + length (i_hash it) + add_size) with (wpos b + reclen it) by (unfold reclen; lia).
   replace (wpos b + hsize (i_v4 it) + add_size) with (wpos b + reclen it) by (unfold reclen; lia).
-  destruct (wpos b + reclen it <? length (data b)) eqn:E1.
+  destruct (wpos b + reclen it <? blen b) eqn:E1.
   - (* the record fits without growing *)
-    left. destruct (length (data b) <? wpos b + reclen it) eqn:E2; [lia|].
+    left. destruct (blen b <? wpos b + reclen it) eqn:E2; [lia|].
     eexists. split; [reflexivity|]. split; [|split; reflexivity].
-    apply add_write_inv with (rest' := rest); auto. lia.
-  - destruct ((limit b <=? N.of_nat (length (data b)))%N
-              || (N.min (limit b) (2 * N.of_nat (length (data b))) <? N.of_nat (wpos b + reclen it))%N) eqn:E3.
+    apply add_write_inv with (rest' := rest); auto; lia.
+  - destruct ((limit b <=? N.of_nat (blen b))%N
+              || (N.min (limit b) (2 * N.of_nat (blen b)) <? N.of_nat (wpos b + reclen it))%N) eqn:E3.
     + (* refused *)
       right. split; [reflexivity|]. unfold rec_max in *. lia.
-    + (* grown to min(limit, 2*len) *)
-      left.
-      set (extra := N.to_nat (N.min (limit b) (2 * N.of_nat (length (data b)))) - length (data b)) in *.
-      assert (Hlen : length (data b ++ repeat 0%N extra) = length (data b) + extra)
-        by (rewrite app_length, repeat_length; reflexivity).
-      rewrite Hlen.
-      destruct (length (data b) + extra <? wpos b + reclen it) eqn:E2; [unfold extra in *; lia|].
-      eexists. split; [reflexivity|]. split; [|split; reflexivity].
-      apply add_write_inv with (rest' := rest ++ repeat 0%N extra); auto.
-      * rewrite Hd, <- app_assoc. reflexivity.
-      * rewrite app_length, repeat_length. unfold extra in *. lia.
-      * rewrite Hlen. lia.
-      * rewrite Hlen. unfold extra in *. lia.
+    + left.
+      set (ns := N.to_nat (N.min (limit b) (2 * N.of_nat (blen b)))) in *.
+      assert (Hns : wpos b + reclen it <= ns /\ blen b <= ns /\ (N.of_nat ns <= limit b)%N)
+        by (unfold ns; lia).
+      destruct (length (data b) <? ns) eqn:E4.
+      * (* reallocated: first len bytes copied, zeroed tail *)
+        destruct (ns <? wpos b + reclen it) eqn:E2; [lia|].
+        eexists. split; [reflexivity|]. split; [|split; reflexivity].
+        assert (Hfn : firstn (blen b) (data b)
+                      = (flat done ++ flat pend) ++ firstn (blen b - wpos b) rest).
+        { rewrite Hd, firstn_app, Hw. f_equal. apply firstn_all2. lia. }
+        apply add_write_inv with (rest' := firstn (blen b - wpos b) rest ++ repeat 0%N (ns - blen b)); auto; try lia.
+        -- rewrite Hfn, <- !app_assoc. reflexivity.
+        -- rewrite app_length, repeat_length, firstn_length. lia.
+        -- rewrite app_length, repeat_length, firstn_length. lia.
+      * (* capacity suffices: re-sliced *)
+        destruct (ns <? wpos b + reclen it) eqn:E2; [lia|].
+        eexists. split; [reflexivity|]. split; [|split; reflexivity].
+        apply add_write_inv with (rest' := rest); auto; lia.
 Qed.
 
 (* ---- Next *)
@@ -194,7 +213,7 @@ Proof. reflexivity. Qed.
 
 Lemma next_empty : forall init b done, Inv init b done [] -> buf_next b = Ok (None, b).
 Proof.
-  intros init b done [_ Hr Hw _ _ _ _]. unfold buf_next.
+  intros init b done HI. destruct HI as [_ Hr Hw _ _ _ _ _ _ _ _]. unfold buf_next.
   replace (wpos b <=? rpos b) with true; [reflexivity|].
   rewrite Hw, Hr. cbn [flat map concat]. rewrite app_nil_r. symmetry. apply Nat.leb_refl.
 Qed.
@@ -204,22 +223,27 @@ Lemma next_step : forall init b done it p,
   exists b', buf_next b = Ok (Some it, b') /\ Inv init b' (done ++ [it]) p
              /\ limit b' = limit b /\ wpos b' = wpos b.
 Proof.
-  intros init b done it p [[rest Hd] Hr Hw Hwd Hwp Hl Hb].
+  intros init b done it p [[rest Hd] Hr Hw Hwd Hwp Hwl Hlc Hl Hi Hc Hb].
   assert (Hwf : wf_item it = true) by (inversion Hwp; assumption).
   assert (Hwp' : all_wf p) by (inversion Hwp; assumption).
   destruct (wf_item_spec it Hwf) as [Hh [Hs He]].
   destruct (reclen_bound it Hwf) as [_ Hr1].
+  assert (Hwr : rpos b + reclen it <= wpos b)
+    by (rewrite Hw, Hr, flat_cons, !app_length, enc_length; lia).
   unfold buf_next.
-  destruct (wpos b <=? rpos b) eqn:E1.
-  { rewrite Hw, Hr, flat_cons, !app_length, enc_length in E1. lia. }
+  destruct (wpos b <=? rpos b) eqn:E1; [lia|].
+  destruct (blen b <=? rpos b) eqn:E0; [lia|].
   assert (Hskip : skipn (rpos b) (data b) = enc it ++ (flat p ++ rest)).
   { rewrite Hd, Hr, flat_cons, <- !app_assoc. apply skipn_app_exact. }
-  rewrite Hskip, enc_shape, tag_roundtrip, <- Hh, skipn_app_exact, firstn_app_exact.
+  rewrite Hskip, enc_shape, tag_roundtrip.
+  replace (rpos b + hsize (i_v4 it) + add_size) with (rpos b + reclen it) by (unfold reclen; lia).
+  destruct (blen b <? rpos b + reclen it) eqn:E2; [lia|].
+  rewrite <- Hh, skipn_app_exact, firstn_app_exact.
   rewrite le32_roundtrip by exact Hs. rewrite errno_roundtrip by exact He.
   eexists. split.
   - destruct it; reflexivity.
   - split; [|split; reflexivity].
-    constructor; cbn [data wpos rpos limit]; auto.
+    constructor; cbn [data blen wpos rpos limit initsz]; auto.
     + exists rest. rewrite Hd, flat_app, flat_one, flat_cons, <- !app_assoc. reflexivity.
     + rewrite flat_app, flat_one, app_length, enc_length, Hr. unfold reclen. lia.
     + rewrite Hw, flat_app, flat_one, flat_cons, <- !app_assoc. reflexivity.
@@ -239,35 +263,39 @@ Qed.
 Definition all_wf_ops (ops : list op) : Prop := Forall (fun o => wf_op o = true) ops.
 
 Lemma run_spec : forall init lim ops b done pend,
-  Inv init b done pend -> limit b = lim -> all_wf_ops ops ->
+  rec_max <= init -> Inv init b done pend -> limit b = lim -> all_wf_ops ops ->
   exists tr b' done' pend', run b ops = (tr, Some b') /\ Inv init b' done' pend' /\ limit b' = lim
     /\ spec_ok lim (N.of_nat init) pend (N.of_nat (wpos b)) ops tr = true.
 Proof.
-  intros init lim ops. induction ops as [|o ops IH]; intros b done pend HI Hlim Hwf.
+  intros init lim ops. induction ops as [|o ops IH]; intros b done pend Hri HI Hlim Hwf.
   - exists [], b, done, pend. split; [reflexivity|]. split; [exact HI|]. split; [exact Hlim|reflexivity].
-  - inversion Hwf as [|? ? Hwo Hwf']; subst. destruct o as [it | | ].
+  - inversion Hwf as [|? ? Hwo Hwf']; subst. destruct o as [it | | | ].
     + (* Add *)
       destruct (add_step _ _ _ _ it HI Hwo) as [[b' [Ha [HI' [Hl' Hw']]]] | [Ha Hle]].
-      * destruct (IH b' done (pend ++ [it]) HI' Hl' Hwf') as [tr [bf [d' [p' [Hrun [HIf [Hlf Hspec]]]]]]].
+      * destruct (IH b' done (pend ++ [it]) Hri HI' Hl' Hwf') as [tr [bf [d' [p' [Hrun [HIf [Hlf Hspec]]]]]]].
         exists (RAdd true :: tr), bf, d', p'. cbn [run spec_ok]. rewrite Ha, Hrun.
         split; [reflexivity|]. split; [exact HIf|]. split; [exact Hlf|].
         rewrite Hw', Nat2N.inj_add in Hspec. rewrite Hspec, andb_true_r.
-        pose proof (inv_wpos_le _ _ _ _ HI'). pose proof (inv_bound _ _ _ _ HI'). rewrite Hl' in *. lia.
-      * destruct (IH b done pend HI eq_refl Hwf') as [tr [bf [d' [p' [Hrun [HIf [Hlf Hspec]]]]]]].
+        pose proof (inv_wl _ _ _ _ HI'). pose proof (inv_bound _ _ _ _ HI'). rewrite Hl' in *. lia.
+      * destruct (IH b done pend Hri HI eq_refl Hwf') as [tr [bf [d' [p' [Hrun [HIf [Hlf Hspec]]]]]]].
         exists (RAdd false :: tr), bf, d', p'. cbn [run spec_ok]. rewrite Ha, Hrun.
         split; [reflexivity|]. split; [exact HIf|]. split; [exact Hlf|]. rewrite Hspec, andb_true_r. lia.
     + (* Next *)
       destruct pend as [|it p].
-      * destruct (IH b done [] HI eq_refl Hwf') as [tr [bf [d' [p' [Hrun [HIf [Hlf Hspec]]]]]]].
+      * destruct (IH b done [] Hri HI eq_refl Hwf') as [tr [bf [d' [p' [Hrun [HIf [Hlf Hspec]]]]]]].
         exists (RNext None :: tr), bf, d', p'. cbn [run spec_ok]. rewrite (next_empty _ _ _ HI), Hrun.
         split; [reflexivity|]. split; [exact HIf|]. split; [exact Hlf|]. exact Hspec.
       * destruct (next_step _ _ _ _ _ HI) as [b' [Hn [HI' [Hl' Hw']]]].
-        destruct (IH b' (done ++ [it]) p HI' Hl' Hwf') as [tr [bf [d' [p' [Hrun [HIf [Hlf Hspec]]]]]]].
+        destruct (IH b' (done ++ [it]) p Hri HI' Hl' Hwf') as [tr [bf [d' [p' [Hrun [HIf [Hlf Hspec]]]]]]].
         exists (RNext (Some it) :: tr), bf, d', p'. cbn [run spec_ok]. rewrite Hn, Hrun.
         split; [reflexivity|]. split; [exact HIf|]. split; [exact Hlf|]. rewrite item_eqb_refl, <- Hw'. exact Hspec.
     + (* Reset *)
-      destruct (IH (buf_reset b) [] [] (inv_reset _ _ _ _ HI) eq_refl Hwf') as [tr [bf [d' [p' [Hrun [HIf [Hlf Hspec]]]]]]].
+      destruct (IH (buf_reset b) [] [] Hri (inv_reset _ _ _ _ HI) eq_refl Hwf') as [tr [bf [d' [p' [Hrun [HIf [Hlf Hspec]]]]]]].
       exists (RReset :: tr), bf, d', p'. cbn [run spec_ok]. rewrite Hrun.
+      split; [reflexivity|]. split; [exact HIf|]. split; [exact Hlf|]. exact Hspec.
+    + (* recycling of the pool element *)
+      destruct (IH (buf_recycle b) [] [] Hri (inv_recycle _ _ _ _ Hri HI) eq_refl Hwf') as [tr [bf [d' [p' [Hrun [HIf [Hlf Hspec]]]]]]].
+      exists (RRecycle :: tr), bf, d', p'. cbn [run spec_ok]. rewrite Hrun.
       split; [reflexivity|]. split; [exact HIf|]. split; [exact Hlf|]. exact Hspec.
 Qed.
 
@@ -278,7 +306,7 @@ Lemma fifo_all_histories : forall init lim ops,
                /\ spec_ok lim (N.of_nat init) [] 0%N ops tr = true.
 Proof.
   intros init lim ops Hi Hwf.
-  destruct (run_spec init lim ops (buf_new init lim) [] [] (inv_new init lim Hi) eq_refl Hwf)
+  destruct (run_spec init lim ops (buf_new init lim) [] [] Hi (inv_new init lim Hi) eq_refl Hwf)
     as [tr [b [_ [_ [Hrun [_ [_ Hspec]]]]]]].
   exists tr, b. split; assumption.
 Qed.
@@ -291,7 +319,7 @@ Lemma refusal_reachable : forall init lim ops tr b it b',
   b' = b /\ (lim <= N.of_nat (wpos b + reclen it))%N.
 Proof.
   intros init lim ops tr b it b' Hi Hwf Hit Hrun Hadd.
-  destruct (run_spec init lim ops (buf_new init lim) [] [] (inv_new init lim Hi) eq_refl Hwf)
+  destruct (run_spec init lim ops (buf_new init lim) [] [] Hi (inv_new init lim Hi) eq_refl Hwf)
     as [tr' [b2 [d' [p' [Hrun' [HI [Hl _]]]]]]].
   rewrite Hrun in Hrun'. inversion Hrun'; subst b2 tr'.
   destruct (add_step _ _ _ _ it HI Hit) as [[b3 [Ha _]] | [Ha Hle]]; rewrite Hadd in Ha.
